@@ -33,6 +33,11 @@ def checker(sc, meta, log, tr):
         elif kind in ("API_STATE", "API_LOCALADDR", "API_CONTACTS"):
             if body.endswith("NONE") or body.endswith("HANG") or body.endswith("ERR"):
                 out.append({"kind": "API call not answered: the node is dead", "time": t, "what": body})
+            elif kind == "API_CONTACTS":
+                listed = body.replace("good=", ",").replace("questionable=", ",").replace(" ", ",").split(",")
+                for r in sc.node["routers"]:
+                    if r.script() in listed:
+                        out.append({"kind": "a router address is listed as a contact", "time": t, "router": r.script()})
     kind = meta["kind"]
     if kind == "none":
         if wire_from_node:
